@@ -209,6 +209,18 @@ def str_method(it, o, a, args, kw):
         if a == "find":
             return -1
         raise PyRaise(ExcObj(it.builtins["ValueError"], ["substring not found"]))
+    if a in ("rindex", "rfind"):
+        needle = args[0]
+        t = as_tmpl(o)
+        for i in range(len(t.parts) - 1, -1, -1):
+            p = t.parts[i]
+            if isinstance(p, str) and needle in p:
+                return PosMark(i, p.rindex(needle))
+            if isinstance(p, Sym) and p.wild and p.pred("contains %r" % needle):
+                raise Unsupported("rindex into free text")
+        if a == "rfind":
+            return -1
+        raise PyRaise(ExcObj(it.builtins["ValueError"], ["substring not found"]))
     if a == "replace":
         old, new = args[0], args[1]
         parts = []
